@@ -90,6 +90,36 @@ def sElems (c : UInt8) : List Value → Option Bytes
     let rest ← sElems c vs
     some (body ++ rest)
 
+/-- the element choice of an array: the compact (one-byte) or the full-width constructor for its integers,
+    the 8- or 32-bit length form for its strings / binaries / symbols.  Zero-width element constructors
+    (0x41 / 0x42 / 0x43 / 0x44) are not among the choices (see the recorded exception). -/
+def sElemF (form : Nat) (ewide : Bool) : Value → Option (UInt8 × Bytes)
+  | .bool b => some (0x56, [if b then 1 else 0])
+  | .fixed k bs =>
+    if form = 2 then none else
+    match sFixed form k bs with
+    | some (c :: d) => some (c, d)
+    | _ => none
+  | .var k bs =>
+    match sVar ewide k bs with
+    | some (c :: d) => some (c, d)
+    | _ => none
+  | _ => none
+
+def sElemsF (form : Nat) (ewide : Bool) (c : UInt8) : List Value → Option Bytes
+  | [] => some []
+  | v :: vs => do
+    let (c', body) ← sElemF form ewide v
+    if c' ≠ c then none else do
+    let rest ← sElemsF form ewide c vs
+    some (body ++ rest)
+
+/-- the element choice carried by an array's `node`: its single child, if it is a leaf; the encoder's
+    own choice (full width, 32-bit lengths) otherwise -/
+def elemChoice : List Ch → Nat × Bool
+  | [.leaf form wide] => (form, wide)
+  | _ => (0, true)
+
 mutual
   /-- every encoding of `v` the specification permits, by the choices made -/
   def sEnc : Ch → Value → Option Bytes
@@ -113,14 +143,14 @@ mutual
         (if body.length + 4 < 4294967296 ∧ kvs.length < 4294967296 then some (0xd1 :: be32 (body.length + 4) ++ be32 kvs.length ++ body) else none)
       else
         (if body.length + 1 < 256 ∧ kvs.length < 256 then some (0xc1 :: UInt8.ofNat (body.length + 1) :: UInt8.ofNat kvs.length :: body) else none)
-    | .node wide _ _, .array vs =>
+    | .node wide _ cs, .array vs =>
       -- §1.6.28–29: size counts the count field, the element constructor and the data
       match vs with
       | [] =>
         if wide then some (0xf0 :: be32 4 ++ be32 0) else some [0xe0, 1, 0]
       | v :: _ => do
-        let (c, _) ← sElem v
-        let body ← sElems c vs
+        let (c, _) ← sElemF (elemChoice cs).1 (elemChoice cs).2 v
+        let body ← sElemsF (elemChoice cs).1 (elemChoice cs).2 c vs
         if wide then
           (if body.length + 5 < 4294967296 ∧ vs.length < 4294967296 then some (0xf0 :: be32 (body.length + 5) ++ be32 vs.length ++ c :: body) else none)
         else
